@@ -202,6 +202,25 @@ def part_skin_errors(p, k, vb, lim, nonneg):
     return e
 
 
+def held_triangles(st):
+    """rotation-normalised triangles held by the partitions of a dump, None when not readable
+    (strips, or mapped triangles outside the vertex map)"""
+    out = set()
+    for p in st["parts"]:
+        if p["tt"]:
+            out.update(rot(t) for t in p["tt"])
+        elif p["ns"] != 0:
+            return None
+        elif st["m"]:
+            for t in p["tris"]:
+                if any(c >= len(p["vm"]) for c in t):
+                    return None
+                out.add(rot(tuple(p["vm"][c] for c in t)))
+        else:
+            out.update(rot(t) for t in p["tris"])
+    return out
+
+
 def aligned_errors(st):
     e = []
     if st["np"] != len(st["parts"]):
@@ -237,7 +256,19 @@ def step_errors(ver, tris, nv, bones, nonneg, pre, op, post):
         if len(pre["tp"]) == n:
             assigned = [rt[i] for i in range(n) if pre["tp"][i] >= 0]
         else:
-            assigned = rt
+            # triParts is regenerated: a triangle is assigned exactly when some partition held it
+            # (decidable here when the shape has no duplicate triangle and the old partitions'
+            # true triangles can be read off the dump); otherwise the rebuilt triParts says which
+            held = held_triangles(pre)
+            if held is not None and len(set(rt)) == n and len(post["tp"]) == n:
+                assigned = [t for t in rt if t in held]
+                for i in range(n):
+                    if (post["tp"][i] >= 0) != (rt[i] in held):
+                        e.append("triangle %d: %s by the old partitions but rebuilt as %s" % (
+                            i, "held" if rt[i] in held else "not held", "assigned" if post["tp"][i] >= 0 else "unassigned"))
+                        break
+            else:
+                assigned = [rt[i] for i in range(min(n, len(post["tp"]))) if post["tp"][i] >= 0]
         e += cover_errors(post, rt, assigned)
         if aligned_errors(pre) == []:
             e += aligned_errors(post)
@@ -314,6 +345,8 @@ def step_errors(ver, tris, nv, bones, nonneg, pre, op, post):
             e.append("SetDefaultPartition: vertexMap is not the identity")
         if post["tp"]:
             e.append("SetDefaultPartition: stale triParts")
+        if not p["hf"]:
+            e.append("SetDefaultPartition: hasFaces = false (a save would not write the partition's triangles)")
         e += aligned_errors(post)
     elif k == "X":
         ids = [int(x) for x in op[1:].split(",")] if op[1:] else []
@@ -355,9 +388,11 @@ def reload_errors(ver, tris, nv, saved, re):
         if [rot(t) for t in p["tt"]] != [rot(t) for t in q["tt"]]:
             e.append("reload: partition %d holds different triangles" % j)
             break
-        if p["tt"] and q["vm"] != corners(q["tt"]):
-            e.append("reload: partition %d vertexMap not exact" % j)
-        e += [x for x in part_geometry_errors(q, re["m"], j) if "numVertices" not in x] if q["tt"] else []
+        # the vertex map survives as saved (exact after a rebuild; SetDefaultPartition's lists every
+        # vertex of the shape by design) and lists every vertex the triangles use
+        if p["tt"] and (q["vm"] != p["vm"] or not set(corners(q["tt"])) <= set(q["vm"])):
+            e.append("reload: partition %d vertexMap differs from the saved one or misses a used vertex" % j)
+        e += [x for x in part_geometry_errors(q, re["m"], j) if "numVertices" not in x and "vertexMap" not in x] if q["tt"] else []
     e += aligned_errors(re)
     if re["shape"] is not None and re["get"]:
         # GetShapePartitions on the reloaded file (triParts regenerated for LE, rebuilt by PrepareData for SSE)
